@@ -19,6 +19,11 @@ theorem locs_replaceJob (s : State) (j' : JobState) :
   intro x _
   by_cases h : x.id = j'.id <;> simp [h]
 
+theorem locs_replaceJob_same {s : State} (hnd : (s.jobs.map (·.id)).Nodup) {j j' : JobState} (hj : j ∈ s.jobs)
+    (hid : j'.id = j.id) (hloc : j'.loc = j.loc) : locs (s.replaceJob j') = locs s := by
+  have := map_replace (key := fun (y : JobState) => y.id) hnd hj hid (fun y => (y.id, y.loc)) (by simp [hid, hloc])
+  simpa [locs, State.replaceJob] using this
+
 @[simp] theorem locs_replaceMachine (s : State) (m : MachineState) : locs (s.replaceMachine m) = locs s := rfl
 @[simp] theorem locs_replaceTransport (s : State) (t : TransportState) : locs (s.replaceTransport t) = locs s := rfl
 @[simp] theorem locs_replaceBuffer (s : State) (b : BufState) : locs (s.replaceBuffer b) = locs s := rfl
